@@ -17,7 +17,13 @@ type gen struct {
 	maxDepth int
 	ids      []string
 	profile  int
+	theme    int // 0 none, themeVars, themeFootnotes: a structural dimension the document is built around
 }
+
+const (
+	themeVars      = 1
+	themeFootnotes = 2
+)
 
 var blockTags = []string{"div", "p", "section", "article", "blockquote", "h1", "h2", "h3", "pre", "center", "address", "figure", "details", "fieldset", "form", "nav", "header", "footer", "main"}
 var inlineTags = []string{"span", "a", "b", "i", "em", "strong", "q", "sup", "sub", "font", "label", "code", "small", "u", "bdo", "bdi", "abbr", "cite"}
@@ -550,10 +556,252 @@ func (g *gen) themedDecls() []Decl {
 }
 
 func (g *gen) someDecls() []Decl {
+	if g.r.Chance(1, 16) {
+		// a custom-property graph and its uses in one declaration list
+		customs, users := g.varGraph()
+		if g.r.Bool() {
+			return append(customs, users...)
+		}
+		return append(users, customs...)
+	}
 	if g.r.Chance(1, 2) {
 		return g.themedDecls()
 	}
 	return g.decls(1, 5)
+}
+
+// ---------------------------------------------------------------- custom-property graphs
+
+var customNames = []string{"--a", "--b", "--c", "--d", "--e"}
+
+func (g *gen) varLiteral() string {
+	return vlib.Pick(g.r, []string{"10px", "2", "red", "5%", "block", "1px solid", "0", "20px", "3em", "#00f", "1", "'s'", "auto", "2 100px", "a b"})
+}
+
+// wrappers through which a var() reference can be routed: math functions, colour
+// functions, unknown functions, simple blocks, the fallback of another var()
+var varWrappers = []string{"calc(%s + 1px)", "calc(2 * %s)", "min(%s, 10px)", "max(1px, %s)", "clamp(1px, %s, 9px)", "rgb(%s, 0, 0)", "rgb(0 %s 0)",
+	"foo(%s)", "(%s)", "[%s]", "{%s}", "translate(%s)", "var(--undefined, %s)", "var(--undefined,%s)", "linear-gradient(%s, blue)", "calc(1px + min(%s, 2px))",
+	"counter(%s)", "repeat(2, %s)", "minmax(%s, 1fr)", "fit-content(%s)", "hsl(%s 50% 50%)", "attr(title, %s)", "symbols(cyclic %s)", "rect(%s, 1px, 1px, 1px)"}
+
+// varRef is a reference to the custom property `name`: bare, with a fallback
+// (a literal or another reference), and routed through 0..2 functions / blocks.
+func (g *gen) varRef(name string, others []string, wrapNum, wrapDen int) string {
+	r := g.r
+	ref := "var(" + name + ")"
+	switch r.Intn(8) {
+	case 0:
+		ref = "var(" + name + ", " + g.varLiteral() + ")"
+	case 1:
+		if len(others) > 0 {
+			ref = "var(" + name + ", var(" + vlib.Pick(r, others) + "))"
+		}
+	case 2:
+		ref = "var( " + name + " )"
+	case 3:
+		if len(others) > 0 {
+			ref = "var(" + name + ", calc(var(" + vlib.Pick(r, others) + ") * 2))"
+		}
+	}
+	for n := 0; n < 2 && r.Chance(wrapNum, wrapDen); n++ {
+		ref = strings.Replace(vlib.Pick(r, varWrappers), "%s", ref, 1)
+	}
+	return ref
+}
+
+// regular properties that use a reference (the custom properties are resolved
+// when a regular property uses them)
+var varUsers = [][2]string{{"width", "%s"}, {"margin-left", "%s"}, {"height", "calc(%s * 2)"}, {"color", "%s"}, {"background-color", "rgb(%s 0 0)"},
+	{"font-size", "%s"}, {"padding", "%s %s"}, {"border", "%s solid red"}, {"transform", "translate(%s)"}, {"content", "%s"}, {"line-height", "%s"},
+	{"columns", "%s"}, {"grid-template-columns", "repeat(2, %s)"}, {"margin", "%s %s"}, {"display", "%s"}, {"min-width", "max(%s, 1px)"}, {"top", "%s"},
+	{"background", "linear-gradient(%s, %s)"}, {"counter-reset", "c %s"}, {"text-indent", "%s"}, {"flex", "%s"}, {"border-radius", "%s / %s"}, {"size", "%s"}}
+
+// varGraph: declarations of 2..5 custom properties referencing each other (random
+// graph: with or without cycles, self references, references to undefined
+// properties), every edge bare or routed through a function, and regular
+// properties using them.  Returned separately: they may sit in the same rule, in
+// different rules (inheritance) or in an inline style.
+func (g *gen) varGraph() (customs []Decl, users []Decl) {
+	r := g.r
+	n := r.Range(2, 5)
+	names := append([]string{}, customNames...)
+	for i := len(names) - 1; i > 0; i-- { // shuffle
+		j := r.Intn(i + 1)
+		names[i], names[j] = names[j], names[i]
+	}
+	names = names[:n]
+	edges := make([][]string, n) // references of names[i]
+	if r.Chance(3, 5) {
+		// a cycle through the first k names (k = 1: self reference)
+		k := r.Range(1, n)
+		for i := 0; i < k; i++ {
+			edges[i] = append(edges[i], names[(i+1)%k])
+		}
+		for i := k; i < n; i++ { // the others lead into the cycle or are leaves
+			if r.Chance(2, 3) {
+				edges[i] = append(edges[i], names[r.Intn(i)])
+			}
+		}
+	} else {
+		// acyclic: references to later names only; the last one is a leaf
+		for i := 0; i < n-1; i++ {
+			edges[i] = append(edges[i], names[r.Range(i+1, n-1)])
+			if r.Chance(1, 4) {
+				edges[i] = append(edges[i], names[r.Range(i+1, n-1)])
+			}
+		}
+	}
+	if r.Chance(1, 6) {
+		edges[r.Intn(n)] = append(edges[r.Intn(n)], "--undefined")
+	}
+	// how often an edge goes through a function: per graph, so that graphs whose
+	// edges are ALL bare, ALL wrapped, or mixed are produced
+	wrapNum := vlib.Pick(r, []int{0, 1, 1, 2, 3})
+	for i, name := range names {
+		var parts []string
+		for _, to := range edges[i] {
+			parts = append(parts, g.varRef(to, names, wrapNum, 3))
+		}
+		if len(parts) == 0 || r.Chance(1, 5) {
+			parts = append(parts, g.varLiteral())
+		}
+		if r.Chance(1, 2) { // order of tokens
+			parts[0], parts[len(parts)-1] = parts[len(parts)-1], parts[0]
+		}
+		v := strings.Join(parts, " ")
+		if r.Chance(1, 12) {
+			v += " !important"
+		}
+		customs = append(customs, Decl{N: name, V: v})
+	}
+	nu := r.Range(1, 3)
+	for i := 0; i < nu; i++ {
+		u := vlib.Pick(r, varUsers)
+		ref := func() string { return g.varRef(names[r.Intn(1+r.Intn(n))], names, 1, 3) }
+		v := u[1]
+		for strings.Contains(v, "%s") {
+			v = strings.Replace(v, "%s", ref(), 1)
+		}
+		users = append(users, Decl{N: u[0], V: v})
+	}
+	return customs, users
+}
+
+var sureSelectors = []string{"*", "html", "body", ":root", "body *", "div", "p", "span", "html, body"}
+
+func (g *gen) sureSel() string {
+	if g.r.Chance(1, 4) {
+		return g.simpleSel()
+	}
+	return vlib.Pick(g.r, sureSelectors)
+}
+
+// varGraphRules places a custom-property graph in 1..3 rules
+func (g *gen) varGraphRules() []Rule {
+	r := g.r
+	customs, users := g.varGraph()
+	switch r.Intn(4) {
+	case 0: // everything in one rule
+		return []Rule{{Pre: g.sureSel(), Decls: append(customs, users...)}}
+	case 1: // uses before definitions, same selector
+		sel := g.sureSel()
+		return []Rule{{Pre: sel, Decls: users}, {Pre: sel, Decls: customs}}
+	case 2: // definitions split over ancestors (inheritance), uses on descendants
+		k := r.Range(1, len(customs)-1)
+		return []Rule{{Pre: "html", Decls: customs[:k]}, {Pre: vlib.Pick(r, []string{"body", "*", "html"}), Decls: customs[k:]}, {Pre: g.sureSel(), Decls: users}}
+	}
+	return []Rule{{Pre: g.sureSel(), Decls: customs}, {Pre: g.sureSel(), Decls: users}}
+}
+
+// ---------------------------------------------------------------- footnotes
+
+// footnoteRules: a footnote area (bounded or not), footnote elements (selector
+// .fn and sometimes plain tags) whose content may be higher than the area or
+// than the page, call / marker pseudo-elements
+func (g *gen) footnoteRules() []Rule {
+	r := g.r
+	pd := func(name string) Decl { return Decl{N: name, V: propByName[name].gen(g)} }
+	sub := func(ds []Decl, num, den int) []Decl {
+		var out []Decl
+		for _, d := range ds {
+			if r.Chance(num, den) {
+				out = append(out, d)
+			}
+		}
+		return out
+	}
+	page := Rule{Pre: "@page"}
+	if r.Chance(1, 4) {
+		page.Pre += " " + vlib.Pick(r, []string{":first", ":left", ":right", ":blank", ":nth(2)"})
+	}
+	if r.Chance(4, 5) {
+		page.Decls = append(page.Decls, Decl{N: "size", V: vlib.Pick(r, []string{"200px 150px", "300px 200px", "A6", "100px", "400px 120px", "150px 400px", "80px 60px", "A4", "300px 50px"})})
+	}
+	if r.Chance(3, 4) {
+		page.Decls = append(page.Decls, Decl{N: "margin", V: vlib.Pick(r, []string{"10px", "0", "20px 10px", "5px", "1px", "40px"})})
+	}
+	if r.Chance(4, 5) {
+		area := Rule{Pre: "@footnote"}
+		lim := vlib.Pick(r, []string{"10px", "20px", "40px", "0", "1px", "50%", "5em", "80px", "15px", "100%", "30px"})
+		area.Decls = append(area.Decls, sub([]Decl{{N: "max-height", V: lim}, {N: "height", V: vlib.Pick(r, []string{"10px", "30px", "0", "60px", "auto", "20%"})}}, 2, 3)...)
+		area.Decls = append(area.Decls, sub([]Decl{{N: "margin-top", V: vlib.Pick(r, []string{"0", "5px", "20px", "-5px"})}, {N: "padding", V: vlib.Pick(r, []string{"0", "2px", "10px"})},
+			{N: "border-top", V: "1px solid red"}, {N: "content", V: "'notes'"}, pd("footnote-display"), pd("overflow"), pd("columns"), pd("display"), pd("position"),
+			{N: "min-height", V: vlib.Pick(r, []string{"5px", "50px", "200px"})}, pd("font-size"), pd("float"), pd("width")}, 1, 7)...)
+		page.Rules = append(page.Rules, area)
+	}
+	if r.Chance(1, 5) {
+		mb := Rule{Pre: vlib.Pick(r, marginBoxes), Decls: []Decl{{N: "content", V: g.contentValue()}}}
+		page.Rules = append(page.Rules, mb)
+	}
+	out := []Rule{page}
+	fn := Rule{Pre: vlib.Pick(r, []string{".fn", ".fn", ".fn", "span.fn", ".fn, q", ".fn, li", ".fn, b", ".fn, .c0"}), Decls: []Decl{{N: "float", V: "footnote"}}}
+	fn.Decls = append(fn.Decls, sub([]Decl{pd("footnote-policy"), pd("footnote-display"),
+		{N: "font-size", V: vlib.Pick(r, []string{"8px", "10px", "16px", "30px", "2em", "60px"})},
+		{N: "line-height", V: vlib.Pick(r, []string{"1", "2", "30px", "100px", "normal"})},
+		{N: "display", V: vlib.Pick(r, []string{"block", "inline-block", "list-item", "table", "flex", "grid", "inline"})},
+		{N: "height", V: vlib.Pick(r, []string{"30px", "100px", "300px", "1000px", "5px", "50%"})},
+		{N: "width", V: vlib.Pick(r, []string{"20px", "100%", "50px", "1px"})},
+		{N: "padding", V: vlib.Pick(r, []string{"2px", "20px", "100px 0"})},
+		{N: "margin", V: vlib.Pick(r, []string{"5px", "50px", "-10px", "0 0 200px"})},
+		{N: "border", V: "3px solid"}, {N: "white-space", V: "pre"}, pd("break-inside"), pd("break-before"), pd("columns"), pd("position"), pd("overflow")}, 1, 5)...)
+	out = append(out, fn)
+	if r.Chance(1, 3) {
+		out = append(out, Rule{Pre: vlib.Pick(r, []string{".fn::footnote-call", "::footnote-call", ".fn::footnote-marker", "::footnote-marker"}),
+			Decls: append([]Decl{{N: "content", V: vlib.Pick(r, []string{"counter(footnote)", "'[' counter(footnote) ']'", "'*'", "none", "counter(footnote, lower-roman) '. '"})}}, g.decls(0, 2)...)})
+	}
+	if r.Chance(1, 3) {
+		out = append(out, Rule{Pre: vlib.Pick(r, []string{"body", "p", "div", "html"}), Decls: sub([]Decl{pd("columns"), pd("orphans"), pd("widows"), pd("font-size"), pd("line-height"), pd("break-after"), pd("height"), pd("column-fill")}, 1, 3)})
+	}
+	return out
+}
+
+// footnoteNode: a footnote element with text (often long: higher than a bounded
+// footnote area) and sometimes block children
+func (g *gen) footnoteNode() *Node {
+	r := g.r
+	n := &Node{K: "el", Tag: vlib.Pick(r, []string{"span", "span", "span", "div", "p", "i", "aside"}), Attrs: [][2]string{{"class", "fn"}}}
+	words := r.Range(1, 6)
+	if r.Chance(1, 2) {
+		words = r.Range(15, 60)
+	}
+	var sb strings.Builder
+	for i := 0; i < words; i++ {
+		if i > 0 {
+			sb.WriteString(" ")
+		}
+		sb.WriteString(vlib.Pick(r, []string{"note", "lorem", "ipsum", "dolor", "sit", "amet", "consectetur", "a", "x"}))
+	}
+	n.Kids = []*Node{{K: "text", Text: sb.String()}}
+	if r.Chance(1, 5) {
+		n.Kids = append(n.Kids, &Node{K: "el", Tag: "div", Style: []Decl{{N: "height", V: vlib.Pick(r, []string{"50px", "200px", "1000px"})}}})
+	}
+	if r.Chance(1, 8) {
+		n.Kids = append(n.Kids, g.footnoteNode()) // a footnote inside a footnote
+	}
+	if r.Chance(1, 6) {
+		n.Style = g.decls(1, 2)
+	}
+	return n
 }
 
 // ---------------------------------------------------------------- selectors / rules
@@ -723,6 +971,33 @@ func (g *gen) sheet(lo, hi int) Sheet {
 	var s Sheet
 	for i := 0; i < n; i++ {
 		s.Rules = append(s.Rules, g.rule(0))
+		switch {
+		case g.r.Chance(1, 14):
+			s.Rules = append(s.Rules, g.varGraphRules()...)
+		case g.r.Chance(1, 40):
+			s.Rules = append(s.Rules, g.footnoteRules()...)
+		}
+	}
+	return s
+}
+
+// themeSheet: the style sheet a themed document is built around
+func (g *gen) themeSheet() Sheet {
+	var s Sheet
+	if g.r.Bool() {
+		s.Rules = append(s.Rules, g.rule(0))
+	}
+	switch g.theme {
+	case themeVars:
+		s.Rules = append(s.Rules, g.varGraphRules()...)
+		if g.r.Chance(1, 3) {
+			s.Rules = append(s.Rules, g.varGraphRules()...)
+		}
+	case themeFootnotes:
+		s.Rules = append(s.Rules, g.footnoteRules()...)
+	}
+	for g.r.Chance(1, 2) {
+		s.Rules = append(s.Rules, g.rule(0))
 	}
 	return s
 }
@@ -743,7 +1018,7 @@ func (g *gen) attrs(tag string) [][2]string {
 		add("dir", vlib.Pick(r, []string{"rtl", "ltr", "auto", "RTL", "bogus"}))
 	}
 	if r.Chance(1, 20) {
-		add("lang", vlib.Pick(r, []string{"en", "he", "ar", "fr", "", "xx-YY", "zh"}))
+		add("lang", vlib.Pick(r, []string{"en", "he", "ar", "fr", "", "xx-YY", "zh", "fr-x", "x", "en_US_x", "-", "id", "de-1996", "zh-Hant-TW", "a-b-c"}))
 	}
 	if r.Chance(1, 12) {
 		add("title", vlib.Pick(r, []string{"a title", "", "שלום", "x\"y"}))
@@ -1063,6 +1338,11 @@ func (g *gen) kids(parent string, depth int) []*Node {
 	}
 	var out []*Node
 	for i := 0; i < n && g.budget > 0; i++ {
+		if g.theme == themeFootnotes && r.Chance(1, 4) {
+			g.budget--
+			out = append(out, g.footnoteNode())
+			continue
+		}
 		switch k := r.Intn(20); {
 		case k < 5:
 			out = append(out, &Node{K: "text", Text: g.text()})
@@ -1087,6 +1367,12 @@ func GenDoc(r *vlib.Rng) *Doc {
 	d.Hints = r.Bool()
 	d.TestUA = r.Chance(1, 6)
 	g.profile = 0
+	switch k := r.Intn(16); {
+	case k < 2:
+		g.theme = themeVars
+	case k < 4:
+		g.theme = themeFootnotes
+	}
 	switch k := r.Intn(10); {
 	case k == 0: // deep nesting
 		g.profile = 1
@@ -1128,6 +1414,13 @@ func GenDoc(r *vlib.Rng) *Doc {
 	for i := 0; i < nStyle; i++ {
 		s := g.sheet(1, 7)
 		headKids = append(headKids, &Node{K: "style", Sheet: &s})
+	}
+	if g.theme != 0 {
+		s := g.themeSheet()
+		headKids = append(headKids, &Node{K: "style", Sheet: &s})
+		if g.theme == themeFootnotes && g.profile == 0 && g.budget > 40 {
+			g.budget = 40 // the page loop, not the size of the document, is the subject
+		}
 	}
 	if r.Chance(1, 5) {
 		headKids = append(headKids, &Node{K: "el", Tag: "title", Kids: []*Node{{K: "text", Text: g.text()}}})
